@@ -83,6 +83,12 @@ def _da():
     return da
 
 
+def _posmask(xp, x):
+    """boolean array of x's shape (and, for dask, x's chunks): False on the first two cells in C order, True elsewhere"""
+    pos = np.arange(int(np.prod(x.shape))).reshape(x.shape) >= 2  # raises on unknown (NaN) shapes -> refusal class 'unknown chunks'
+    return pos if xp is np else xp.from_array(pos, chunks=x.chunks)
+
+
 # name -> (dask function, numpy function).  Both take the array only; arguments are fixed and small.
 def _steps():
     da = _da()
@@ -108,7 +114,9 @@ def _steps():
     S["step_last"] = both(lambda xp, x: x[..., ::2])
     S["int_last"] = both(lambda xp, x: x[..., 0])
     S["list0"] = both(lambda xp, x: x[[-1, 0]])
-    S["boolmask"] = both(lambda xp, x: x[x > 2])
+    # masks select by POSITION (all but the first two cells), not by value: which blocks become empty must not depend on the
+    # seed-chosen permutation of the data, so that the enumerated space -- and the set of finding keys -- is seed-independent
+    S["boolmask"] = both(lambda xp, x: x[_posmask(xp, x)])
     S["newaxis"] = both(lambda xp, x: x[:, None])
     # ---- C21 assignment
     S["setitem"] = both(lambda xp, x: _setitem(x))
@@ -149,14 +157,14 @@ def _steps():
     # ---- C27 routines
     S["unique"] = both(lambda xp, x: xp.unique(x))
     S["bincount"] = both(lambda xp, x: xp.bincount(x, minlength=3))
-    S["flatnonzero"] = both(lambda xp, x: xp.flatnonzero(x > 2))
+    S["flatnonzero"] = both(lambda xp, x: xp.flatnonzero(_posmask(xp, x)))
     S["histogram"] = both(lambda xp, x: xp.histogram(x, bins=3, range=(0, 12))[0])
     S["digitize"] = both(lambda xp, x: xp.digitize(x, np.array([2, 5])))
     S["isin"] = both(lambda xp, x: xp.isin(x, [1, 3]))
     S["count_nonzero"] = both(lambda xp, x: xp.count_nonzero(x > 2, axis=0))
     S["coarsen"] = (lambda x: da.coarsen(np.sum, x, {0: 2}, trim_excess=True)), _np_coarsen
     S["compress"] = both(lambda xp, x: xp.compress([True, False, True], x, axis=0))
-    S["argwhere"] = both(lambda xp, x: xp.argwhere(x > 2))
+    S["argwhere"] = both(lambda xp, x: xp.argwhere(_posmask(xp, x)))
     # a priori: steps that name an axis (or index one) need ndim >= 1.  NumPy accepts axis=0/-1 on 0-d input through its
     # 0-d -> 1-d promotion (np.sum(np.int64(3), axis=0), np.repeat(np.int64(3), 2, axis=0), np.int64(3)[np.True_]); dask
     # refuses them with AxisError/IndexError, which no statement forbids.
